@@ -1412,6 +1412,25 @@ class Engine:
         st.pc = rets[0].pc
         return rets[0].ret
 
+    def call_sub_states(self, st, fn, args):
+        """run a repo function (closure) with all its effects and forks; returns [(state, ret)] where each state has the
+        caller's frames restored and is ready to continue"""
+        sub = st.fork()
+        saved = sub.frames
+        sub.frames = []
+        self.push_frame(sub, fn, args, None, None)
+        saved_paths = self.stats['paths']
+        finals = self.run(sub)
+        self.stats['paths'] = saved_paths
+        outs = []
+        for f in finals:
+            if f.status != 'returned':
+                continue
+            f.frames = [fr.copy() for fr in saved]
+            f.status = 'running'
+            outs.append((f, f.ret))
+        return outs
+
     def call_sub_merge(self, st, fn, args):
         """run a side-effect free repo function that may fork; returns its Bool result as one term
         (disjunction over the paths that return true) or None"""
